@@ -75,7 +75,8 @@ DummyOf(k, f) ==
 NoFailSet == IF Scenario = 2 THEN {x1} ELSE {}
 LibDrop == IF Scenario = 3 THEN {x2} ELSE {}
 EarlyExit == IF Scenario = 3 THEN {"f1"} ELSE {}
-CrashFiles == IF Crash THEN {"f2"} ELSE {}
+\* scenario 4: both workers may die, at any point each (several crashes in one run, also of the last workers)
+CrashFiles == IF Crash THEN (IF Scenario = 4 THEN {"f1", "f2"} ELSE {"f2"}) ELSE {}
 Threads == IF NJobs = 2 THEN {"t1", "t2"} ELSE {"t1", "t2", "t3"}
 
 R == INSTANCE RunDrive WITH Mode <- "single",
@@ -104,13 +105,19 @@ Range(s) == {s[i] : i \in DOMAIN s}
 Crashed == {p_chst[c].file : c \in {d \in DOMAIN p_chst : p_chst[d].eof \/ (p_chst[d].reaped /\ \E x \in Range(p_emitted) : x.id = "cppcheckError" /\ x.file = p_chst[d].file)}}
 RaisedBy(x) == {Files[i] : i \in {j \in DOMAIN Files : x \in Range(RawOf[Files[j]])}}
 
+\* a suppression whose only matches are in files whose worker died is reported as unmatched: the worker never told the
+\* parent that it matched. The statement of C21 does not rule that out (it is a report about the crashed file's code).
+UnmatchedBecauseOfCrash(x) ==
+  /\ x.id = "unmatchedSuppression"
+  /\ \E f \in Crashed : \E y \in Range(RawOf[f]) : ResOf(x.file, y) = "M"
+
 \* C21 (design): a dying worker is contained
 Contained ==
   (p_phase = "done" /\ Crashed # {}) =>
      /\ \A f \in Crashed : \E x \in Range(p_emitted) : x.id = "cppcheckError" /\ x.file = f
      /\ p_exit = ExitCode
      /\ \A x \in Range(r_emitted) : (RaisedBy(x) \subseteq Crashed) \/ x \in Range(p_emitted)
-     /\ \A x \in Range(p_emitted) : x.id = "cppcheckError" \/ x \in Range(r_emitted)
+     /\ \A x \in Range(p_emitted) : x.id = "cppcheckError" \/ x \in Range(r_emitted) \/ UnmatchedBecauseOfCrash(x)
 
 \* C15 (design): same findings, same unmatched-suppression reports, same exit status
 ParallelEqSingle ==
